@@ -476,6 +476,8 @@ class SymInterp(Interp):
                 return list(zip(recv, args[0]))
             if m in ("first", "last"):
                 return (recv[0] if m == "first" else recv[-1]) if recv else None
+            if m == "get" and len(args) == 1 and isinstance(args[0], int):
+                return recv[args[0]] if 0 <= args[0] < len(recv) else None
             if m in ("max", "min") and not args:
                 if not recv:
                     return None
@@ -552,6 +554,8 @@ class SymInterp(Interp):
             return recv
         if m == "clamp" and len(args) == 2 and all(isinstance(x, int) for x in (recv, args[0], args[1])):
             return max(args[0], min(recv, args[1]))
+        if m in ("copied", "cloned") and not args and (recv is None or isinstance(recv, (int, Lin))):
+            return recv
         if m in ("unwrap_or", "unwrap_or_default") and recv is not None:
             return recv
         if m == "unwrap_or" and recv is None:
